@@ -4,6 +4,7 @@ import WuffsVerif.Model.Parse
 /-! Line driver for C11 (lang/token, lang/parse).  Ops:
   tok <hex>          -> ok n=<tokens> u=<user names> c=<comments> h=<fnv1a-64> [t=id:line,…]  |  err <class> <line|->
   parse <du> <hex>   -> ok n=<dump length> h=<fnv1a-64 of the AST dump> [d=…]  |  err <line|->  |  notok
+  pexpr <hex>        -> the same for parse.ParseExpr (model: `pExpr` at the full depth budgets)
 (the same canonical lines harness/cmd/c11/tie.go renders from token.Tokenize's / parse.Parse's
 answers; <du> = Options.AllowDoubleUnderscoreNames).
 -/
@@ -69,11 +70,36 @@ def parseLine (du : Bool) (src : ByteArray) : String :=
       let s := s!"ok n={dump.size} h={hex16 h}"
       if dump.size ≤ 400 then s ++ " d=" ++ ",".intercalate (dump.toList.map toString) else s
 
+def dumpLine (n : Parse.Node) : String :=
+  let dump := Parse.dumpNode 1000000000 n #[]
+  let h := dump.foldl fnvU32 fnvInit
+  let s := s!"ok n={dump.size} h={hex16 h}"
+  if dump.size ≤ 400 then s ++ " d=" ++ ",".intercalate (dump.toList.map toString) else s
+
+/-- `parse.ParseExpr(tm, filename, tokens, nil)`. -/
+def exprLine (src : ByteArray) : String :=
+  match tokenize src with
+  | .error _ => "notok"
+  | .ok st =>
+    let env : Parse.Env := { tm := st.m, opts := {} }
+    let toks := st.toks.toList
+    let ps : Parse.PState := { src := toks, lastLine := (toks.getLast?.map (·.line)).getD 0 }
+    match (Parse.pExpr env (Parse.MaxExprDepth + 1) (Parse.MaxTypeExprDepth + 1)
+        (Parse.MaxBodyDepth + 1)).run ps with
+    | .error (.at l) => s!"err {l}"
+    | .error .internal => "err -"
+    | .error .stuck => "stuck"
+    | .ok (n, _) => dumpLine n
+
 def step (l : List String) : String :=
   match l with
   | ["parse", du, hex] =>
     match fromHexArr hex with
     | some src => parseLine (du == "1") src
+    | none => "bad-op"
+  | ["pexpr", hex] =>
+    match fromHexArr hex with
+    | some src => exprLine src
     | none => "bad-op"
   | ["tok", hex] =>
     match fromHexArr hex with
